@@ -53,6 +53,7 @@ var (
 	opDataAprv = MOp{K: "data", PID: 0x100, Len: 400, AF: "priv10"}
 	opDataAopc = MOp{K: "data", PID: 0x100, Len: 200, AF: "opcr"}
 	// a header that uses every optional field, and one that also sets the pack header flag the writer cannot express
+	opDataAltw  = MOp{K: "data", PID: 0x100, Len: 250, AF: "extltw"}
 	opDataAfull = MOp{K: "data", PID: 0x100, Len: 300, Hdr: "full"}
 	opDataApack = MOp{K: "data", PID: 0x100, Len: 300, Hdr: "pack"}
 	// no PES data at all, only an adaptation field (with and without stuffing requested by the caller)
@@ -96,7 +97,7 @@ var (
 
 var muxFullAlpha = []MOp{
 	opAddA, opAddB, opAddC, opAddD, opAddAuto, opAddHi, opAddLo, opRmA, opRmB, opRmX, opPcrA, opPcrB, opPcrX, opTables,
-	opDataA1, opDataAfit, opDataAs1, opDataAs2, opDataA3, opDataA17, opDataARAI, opDataAprv, opDataAopc, opDataA0pcr, opDataA0stp, opDataAnor, opDataAhdr, opDataAfull, opDataApack,
+	opDataA1, opDataAfit, opDataAs1, opDataAs2, opDataA3, opDataA17, opDataARAI, opDataAprv, opDataAopc, opDataA0pcr, opDataA0stp, opDataAnor, opDataAhdr, opDataAfull, opDataApack, opDataAltw,
 	opDataB1, opDataBRAI, opDataAuto, opDataX,
 	opPktNull, opPktOwn, opPktAF, opPktShort, opPktBig, opPktStale, opPktWrap, opPktPriv0, opPktAF252, opDataApr0, opAddMany, opRmMany,
 }
@@ -156,6 +157,9 @@ func MuxScenarios(thorough bool) []MuxScenario {
 		MuxScenario{Name: "fix-version-wrap", Period: 40, Setup: setupA, Alpha: []MOp{opPcrA, opTables}, Depth: -1, Dedup: true},
 		MuxScenario{Name: "fix-two-pids-p3", Period: 3, Setup: setupAB, Alpha: []MOp{opDataA1, opDataB17}, Depth: -1, Dedup: true},
 		MuxScenario{Name: "fix-failing-tables", Period: 40, Setup: setupA, Alpha: []MOp{opTables, opPcrX, opPcrA}, Depth: fixDepth, Dedup: true},
+		// a refused WriteData (adaptation field that cannot fit) at every value of the PID's counter, including right
+		// after the wrap from 15 to 0
+		MuxScenario{Name: "fix-refused-p3", Period: 3, Setup: setupA, Alpha: []MOp{opDataA1, opDataAwrap}, Depth: -1, Dedup: true},
 		MuxScenario{Name: "fix-noroom-p2", Period: 2, Setup: setupA, Alpha: []MOp{opDataAnor, opDataA1, opTables}, Depth: -1, Dedup: true},
 		MuxScenario{Name: "noroom-kinds-p3", Period: 3, Setup: setupA, Alpha: []MOp{opDataAnor, opDataAnorPCR, opDataAnorRAI, opDataAnorSt, opDataAnorStP, opDataA1, opDataARAI}, Depth: 4, Dedup: true},
 		// insertion order survives removals from the front and the middle of four streams (PCR on the second)
